@@ -203,9 +203,9 @@ theorem timesBuffered_cons (h : Hints) (r : Rec) (rs : List Rec) (k : GAEC) :
   · simp only [hon, if_false, false_and]
     cases r <;> simp
 
-/-- **Address-event totals.**  For every generic key, the total count stored in the block built equals the number of
-    times the key was buffered (while address events were enabled). -/
-theorem aec_counts (h : Hints) (recs : List Rec) (k : GAEC) : countFor (build h recs) k = timesBuffered h recs k := by
+/-- the address-event invariant holds of every block built: entries address existing addresses, keys are pairwise distinct,
+    totals are the numbers of times the keys were buffered -/
+theorem aecInv_build (h : Hints) (recs : List Rec) : AecInv (build h recs) (fun k => 0 + timesBuffered h recs k) := by
   unfold build
   have gen : ∀ (b : Blk) (cnt : GAEC → Nat), AecInv b cnt → AecInv (recs.foldl (addRec h) b) (fun k => cnt k + timesBuffered h recs k) := by
     induction recs with
@@ -233,8 +233,16 @@ theorem aec_counts (h : Hints) (recs : List Rec) (k : GAEC) : countFor (build h 
     · intro e he; cases he
     · exact List.nodup_nil
     · intro k; rfl
-  have := (gen {} (fun _ => 0) h0).counts k
+  exact gen {} (fun _ => 0) h0
+
+/-- **Address-event totals.**  For every generic key, the total count stored in the block built equals the number of
+    times the key was buffered (while address events were enabled). -/
+theorem aec_counts (h : Hints) (recs : List Rec) (k : GAEC) : countFor (build h recs) k = timesBuffered h recs k := by
+  have := (aecInv_build h recs).counts k
   simpa using this
+
+/-- no address-event key is stored twice in a block built -/
+theorem aec_keys_nodup (h : Hints) (recs : List Rec) : ((build h recs).aecs.map (·.1)).Nodup := (aecInv_build h recs).keysNodup
 
 /-! ### statistics -/
 
